@@ -190,7 +190,12 @@ class TermGen:
         self.max_depth = max_depth
         self.macros = []   # live define-funs: (name, [param sorts], ret)
         self.let_id = 0
+        self.let_depth = 0
         self.allow_let = True
+        # "uf-heavy" mode (combined logics): numeric positions are often applications of uninterpreted functions and
+        # comparisons are often (dis)equalities between such applications, so that theory combination (interface
+        # equalities, values invented by the Egraph model builder next to Simplex values) carries the answer
+        self.uf_heavy = False
 
     # ---------------------------------------------------------------- constants
     def const(self, sort):
@@ -260,6 +265,10 @@ class TermGen:
         if self.p['dl']:
             return self.dl_leaf(sort, d)
         c = r.random()
+        if self.uf_heavy and d > -2 and r.random() < (0.45 if d > 0 else 0.3):
+            cands = self.sig.funs_returning(sort)
+            if cands:
+                return self.uf_app(r.choice(cands), d)
         if d <= 0 or c < 0.3:
             return self.var(sort) if r.random() < 0.75 else self.const(sort)
         if c < 0.5:
@@ -342,6 +351,9 @@ class TermGen:
             if self.p['dl']:
                 return self.dl_atom(sort, d)
             op = r.choice(['<', '<=', '>', '>=', '=', '<=', 'distinct'])
+            if self.uf_heavy and r.random() < 0.4:
+                op = r.choice(['=', 'distinct', '>=', '<='])
+                d = max(d, 2)
             n = 3 if (op not in ('distinct',) and r.random() < 0.12) else 2
             return T('app', 'Bool', head=op, args=[self.numeric(sort, d - 1) for _ in range(n)])
         if k == 'ueq':
@@ -358,6 +370,8 @@ class TermGen:
     def boolean(self, d):
         r = self.rng
         c = r.random()
+        if self.allow_let and 0 < self.let_depth < 3 and d > 0 and r.random() < 0.25:
+            return self.make_let(d)     # lets nest (and shadow) much more often than they start
         if d <= 0 or c < 0.35:
             return self.atom(d)
         if c < 0.5:
@@ -374,24 +388,42 @@ class TermGen:
             return T('app', 'Bool', head='ite', args=[self.boolean(d - 1), self.boolean(d - 1), self.boolean(d - 1)])
         if not self.allow_let:
             return self.atom(d)
-        # let: bind one or two subterms, use them in the body
+        return self.make_let(d)
+
+    def make_let(self, d):
+        r = self.rng
+        # let: bind one or two subterms, use them in the body. A binder may re-use the name of an enclosing let binder of
+        # the same sort (shadowing; the binding term is still read in the outer scope, so (let ((x x)) ..) can arise too)
         self.let_id += 1
         my_id = self.let_id
         sorts = ['Bool'] + ([r.choice(self.p['nums'])] if (self.p['nums'] and not self.p['dl']) else [])
         binds = []
-        saved = {}
+        saved = []
         for k, s in enumerate(sorts):
             nm = 'l%d_%d' % (my_id, k)
+            outer = [x for x in self.sig.consts.get(s, []) if x[:1] == 'l' and '_' in x and x not in [b[0] for b in binds]]
+            if outer and r.random() < 0.35:
+                nm = r.choice(outer)
+                if r.random() < 0.3:
+                    binds.append((nm, T('var', s, val=nm)))
+                    continue
             binds.append((nm, self.term(s, d - 1)))
         for (nm, b) in binds:
-            saved[nm] = b.sort
+            saved.append((nm, b.sort))
             self.sig.consts.setdefault(b.sort, [])
         # make the bound names available as variables of their sort while generating the body
-        for nm, s in saved.items():
+        for nm, s in saved:
             self.sig.consts[s] = self.sig.consts[s] + [nm]
+        self.let_depth += 1
         body = self.boolean(d - 1)
-        for nm, s in saved.items():
-            self.sig.consts[s] = [x for x in self.sig.consts[s] if x != nm]
+        self.let_depth -= 1
+        for nm, s in saved:
+            lst = list(self.sig.consts[s])
+            for j in range(len(lst) - 1, -1, -1):
+                if lst[j] == nm:
+                    del lst[j]
+                    break
+            self.sig.consts[s] = lst
         return T('let', 'Bool', args=[body], binds=binds)
 
 
